@@ -119,8 +119,7 @@ def candidates(m, allowed):
     add('concat', not un, weight=2)
     add('intersperse', not un and m.sized and m.n >= 1)
     add('zip', not un and m.sized)
-    add('key_zip', not un and m.cap_keys == 'req' and m.cap_str == 'req' and not m.taint and m.keys is not None
-        and len(set(m.keys)) == len(m.keys))
+    add('key_zip', not un and m.cap_keys == 'req' and m.cap_str == 'req' and not m.taint and m.keys is not None)
     return out
 
 
@@ -212,7 +211,7 @@ def st_stage(draw, op, node, m, ctx, allowed, budget):
             ins = ins[::-1]
         return {'op': 'zip', 'how': draw(st.sampled_from(['method', 'function'])), 'ins': ins}
     if op == 'key_zip':
-        keys = draw(st.permutations(list(m.keys)))
+        keys = draw(st.permutations(sorted(set(m.keys))))
         o = draw(st_source(ctx, kind='dict', keys=list(keys)))
         if draw(st.booleans()):
             o = {'op': 'map', 'fn': draw(st.integers(0, 3)), 'in': o}
